@@ -190,17 +190,17 @@ ConstructedBit(cls) == IF cls \in {"DerSequence", "DerSetOf"} THEN 32 ELSE 0
 OuterTag(d) == IF d.imp >= 0 THEN 128 + ConstructedBit(d.cls) + d.imp ELSE IF d.exp >= 0 THEN 160 + d.exp ELSE UniversalTag(d.cls)
 Dec(cls, strict) == [cls |-> cls, strict |-> strict, imp |-> -1, exp |-> -1, nr |-> <<>>, ints |-> FALSE]
 
-\* content octets of the element announced by d:  <<"ok", content>>  or an error
+\* content octets of the element announced by d:  <<"ok", content, bytes follow the element>>  or an error
+\* (the order of the checks is the library's, so that a string with several defects is named after the one met first)
 TaggedContent(d, s) ==
    LET r == ReadTlv(s) IN
    IF ~IsOk(r) THEN r
    ELSE IF r[2] # OuterTag(d) THEN Err("unexpected identifier octet")
-   ELSE IF Len(r[4]) > 0 THEN Err("trailing bytes")
-   ELSE IF d.exp < 0 THEN <<"ok", r[3]>>
+   ELSE IF d.exp < 0 THEN <<"ok", r[3], Len(r[4]) > 0>>
    ELSE LET q == ReadTlv(r[3]) IN
         IF ~IsOk(q) THEN q
         ELSE IF q[2] # UniversalTag(d.cls) THEN Err("unexpected inner identifier octet")
-        ELSE IF Len(q[4]) > 0 THEN Err("trailing bytes") ELSE <<"ok", q[3]>>
+        ELSE IF Len(q[4]) > 0 THEN Err("trailing bytes") ELSE <<"ok", q[3], Len(r[4]) > 0>>
 
 (* ------------------------------------------------------------------ the decoders *)
 ContentDecode(d, p) ==
@@ -232,7 +232,10 @@ Decode(d, s) ==
    THEN LET r == ReadTlv(s) IN
         IF ~IsOk(r) THEN r ELSE IF Len(r[4]) > 0 THEN Err("trailing bytes")
         ELSE <<"ok", [tag |-> r[2], payload |-> r[3]], SingleOctetTag(r[2])>>
-   ELSE LET c == TaggedContent(d, s) IN IF ~IsOk(c) THEN c ELSE ContentDecode(d, c[2])
+   ELSE LET c == TaggedContent(d, s) IN
+        IF ~IsOk(c) THEN c
+        ELSE LET v == ContentDecode(d, c[2]) IN
+             IF ~IsOk(v) THEN v ELSE IF c[3] THEN Err("trailing bytes") ELSE v
 
 (* ------------------------------------------------------------------ the encoders *)
 ContentEncode(d, v) ==
